@@ -473,6 +473,19 @@ def draw_op(draw, m, pc, opts):
         cands = [op for op in cands if not opts["exclude"](op, m, pc)]
     if not cands:
         return None
+    bias = opts.get("_reuse")
+    if bias is not None and draw(st.integers(0, 2)) == 0:
+        # prefer re-using names of directories that left / were removed, removing the re-born ones, and
+        # removing directories that were moved out
+        hot = [
+            op for op in cands
+            if (op[0] in ("mkdir", "makedirs") and op[1] in bias["gone"])
+            or (op[0] in ("rename", "move_in") and op[2] in bias["gone"])
+            or (op[0] in ("rmdir", "rmtree", "move_out") and op[1] in bias["reborn"])
+            or (op[0] == "ext_rmtree" and op[1] in bias["left"])
+        ]
+        if hot:
+            cands = hot
     kinds = sorted({op[0] for op in cands})
     wt = dict(WEIGHT, makedirs=4)
     wt.update(opts.get("weights") or {})
@@ -543,6 +556,8 @@ def histories(draw, opts):
             apply_op(m, op)
             init_ops.append(list(op))
     bursts = []
+    if opts.get("reuse_bias"):
+        opts = dict(opts, _reuse={"gone": set(), "reborn": set(), "left": set()})
     for _ in range(draw(st.integers(1, opts.get("max_bursts", 4)))):
         pc = Pacing()
         burst = []
@@ -555,6 +570,14 @@ def histories(draw, opts):
             apply_op(m, op)
             pc.note(op, before)
             burst.append(list(op))
+            if opts.get("_reuse") is not None:
+                b = opts["_reuse"]
+                dirs_before = {p for p, v in before.tree.items() if v[0] == "d"}
+                dirs_after = {p for p, v in m.tree.items() if v[0] == "d"}
+                b["reborn"] |= (dirs_after - dirs_before) & b["gone"]
+                b["gone"] |= dirs_before - dirs_after
+                if op[0] == "move_out" and before.kind(op[1]) == "d":
+                    b["left"].add(op[2])
             if opts.get("sleeps", True):
                 s = draw(st.sampled_from([0, 0, 0, 0, 1, 20]))
                 if s:
